@@ -48,15 +48,15 @@ InBounds(ks, v, m) == \A i \in DOMAIN v : ks[i] = "hard" => (0 <= v[i] /\ v[i] <
 Fd == INSTANCE Fold WITH Ms <- {1}, Span <- 1, Dims <- {1}, MaxRows <- 1, Span2 <- 1,
                          pc <- "in", M <- 1, kinds <- <<"hard">>, rows <- <<>>, out <- <<>>, ok <- <<>>
 
-CONSTANTS Cases,     \* sequence of << M, d, alpha, tabs, steptabs >> :
+CONSTANTS Cases,     \* sequence of << M, d, alpha, tabs, steptabs, bs, maxdraws >> :
                      \*   alpha    = << <<z, w>>, ... >> signed increment z (cells) with integer weight w
                      \*   tabs     = set of tables e (sequences of length M^d); {} means EVERY table over Levels
                      \*   steptabs = the tables for which the sweep actions are enabled (transitions enumerated)
+                     \*   bs       = set of b, beta = b/2
+                     \*   maxdraws = bound on the number of increments drawn in one proposal (redraw loop unrolled)
           Levels,    \* values of the table e (even integers >= 0)
-          Bs,        \* set of b, beta = b/2
           Rule,      \* "intended" | "impl"
-          HardMode,  \* "any" | "none" (no hard coordinate) | "some" (at least one hard coordinate)
-          MaxDraws   \* bound on the number of increments drawn in one proposal (redraw loop unrolled)
+          HardMode   \* "any" | "none" (no hard coordinate) | "some" (at least one hard coordinate)
 
 VARIABLES pc, ci, M, kinds, e, b, pis, mat, u, zs, prop, fol, ok, rc, acc, rec
 
@@ -181,7 +181,7 @@ Init ==
     /\ kinds \in [1..Cases[ci][2] -> Kinds]
     /\ HardOK(kinds)
     /\ e \in Tabs(ci)
-    /\ b \in Bs
+    /\ b \in Cases[ci][6]
     /\ pis = <<>> /\ mat = <<>> /\ u = <<>>
     /\ zs = <<>> /\ prop = <<>> /\ fol = <<>> /\ ok = FALSE /\ rc = "none" /\ acc = FALSE /\ rec = <<>>
 
@@ -195,7 +195,7 @@ Weights ==
 
 \* the walker's current state (a particle of the batch handed to the runner)
 Walker ==
-    /\ pc = "weights" /\ e \in Cases[ci][5] /\ MaxDraws >= 1
+    /\ pc = "weights" /\ e \in Cases[ci][5] /\ Cases[ci][7] >= 1
     /\ u' \in Cube(M, D)
     /\ mat' = <<>>
     /\ pc' = "start"
@@ -227,7 +227,7 @@ Check ==
 \* code-shaped hard-wall rule: `while True:` draws a FRESH increment from the CURRENT state
 Impl_RedrawUntilInside ==
     /\ pc = "checked" /\ ~ok /\ Rule = "impl"
-    /\ Len(zs) < MaxDraws
+    /\ Len(zs) < Cases[ci][7]
     /\ \E z \in Incs(Alpha, D) :
          /\ zs' = Append(zs, z)
          /\ prop' = Raw(u, z)
@@ -278,7 +278,7 @@ Spec == Init /\ [][Next]_vars
 
 TypeOK ==
     /\ pc \in {"init", "weights", "start", "proposed", "folded", "checked", "done"}
-    /\ b \in Bs
+    /\ b \in Cases[ci][6]
     /\ Len(e) = Pow(M, D)
     /\ \A i \in DOMAIN e : e[i] % 2 = 0 /\ e[i] >= 0
     /\ Rule \in {"intended", "impl"}
@@ -320,7 +320,7 @@ DrawCount ==
 
 \* the product form of the proposal weights is the brute-force sum over increment vectors
 Factorised ==
-    (pc = "weights" /\ b = (CHOOSE x \in Bs : TRUE) /\ e = (CHOOSE t \in Tabs(ci) : TRUE)) => \A v, w \in Cube(M, D) : QNum(ci, kinds, v, w) = QNumDef(kinds, Alpha, v, w, M)
+    (pc = "weights" /\ b = (CHOOSE x \in Cases[ci][6] : TRUE) /\ e = (CHOOSE t \in Tabs(ci) : TRUE)) => \A v, w \in Cube(M, D) : QNum(ci, kinds, v, w) = QNumDef(kinds, Alpha, v, w, M)
 
 \* the copied boundary operators are Fold.tla's
 FoldOpsAgree ==
